@@ -6,7 +6,7 @@ import ast
 from framelint.core import rule, Ctx
 from framelint.srcmodel import walk_own, AnalysisError
 from framelint.canon import (canon_function, show, S, to_poly, mk_lt, mk_and, mk_not, k_num, contains, skey, Sigma,
-                             mk_call, atoms_of)
+                             mk_call, atoms_of, K_NONE)
 from framelint.peval import paths
 from framelint.cfg import EXIT, ENTRY
 from .common import resolve_local, GEOM, MODULE, NETLIST, sigma_xy, sigma_dual, call_name, norm_stmt, is_eps_atom
@@ -171,6 +171,10 @@ def r2(ctx: Ctx) -> None:
             # labelling: receiver is element 0 of the list, argument another element
             if recv == ("s", p0, k_num(0)) and args[0][0] == "s" and args[0][1] == p0:
                 ok = True
+            # ... the other element being the variable of a loop over the rest of the list
+            rest_loops = [lp for lp in atoms_of(c, lambda x: x[0] == "for" and len(x) == 5) if lp[2] == ("s", p0, ("slice", k_num(1), K_NONE, K_NONE))]
+            if recv == ("s", p0, k_num(0)) and any(args[0] == lp[1] for lp in rest_loops):
+                ok = True
             # candidate test: receiver is the loop element, argument the comprehension element
             if recv[0] == "v" and args[0][0] == "b":
                 ok = True
@@ -298,9 +302,9 @@ def r5(ctx: Ctx) -> None:
             idx_swap = i
         if st == ("set", ("a", first, "location"), trunk):
             idx_trunk = i
-        if st[0] == "for" and st[2] == ("c", ("g", "range"), (k_num(1), ("c", ("g", "len"), (p0,), ())), ()):
+        if st[0] == "for" and st[2] == ("s", p0, ("slice", k_num(1), K_NONE, K_NONE)):      # every element but the first (index loops have this form too)
             v = st[1]
-            want = ("set", ("a", ("s", p0, v), "location"), ("c", ("a", first, "find_location"), (("s", p0, v),), ()))
+            want = ("set", ("a", v, "location"), ("c", ("a", first, "find_location"), (v,), ()))
             if st[3] == (want,):
                 idx_loop = i
         if st == ("ret", ("k", "bool", True)):
